@@ -394,9 +394,8 @@ theorem c07_adapters_total {σ : Type} (decode : σ → Bytes → Call σ) (h : 
   · unfold frEof; split
     · simp
     · exact frEofLoop_no_panic decode h _ _
-  · unfold wsMsg
-    have := h f.st (f.buf ++ piece)
-    simp only []
-    cases hr : (decode f.st (f.buf ++ piece)).res <;> simp_all
+  · unfold wsMsg; split
+    · simp
+    · exact frLoop_no_panic decode h _ _
 
 end Octo
